@@ -330,6 +330,11 @@ CONFIGS = {
         {"maxcalls": 3, "prefs": [""], "tls": [True, False], "reactions": ["OK", "NO"],
          "ops": ["LISTSCRIPTS", "PUTSCRIPT"],
          "pairs": [{"pre": {"sasl": ["PLAIN", "LOGIN"], "tls": True}, "post": {"sasl": ["LOGIN"], "tls": False}}]},
+        # names that merely *contain* an implemented mechanism's name, and lower-case spellings
+        {"maxcalls": 1, "prefs": ["", "LOGIN", "PLAIN"], "tls": [True, False], "reactions": ["OK", "NO"], "ops": ["LISTSCRIPTS"],
+         "pairs": [{"pre": {"sasl": ["PLAIN", "LOGIN"], "tls": True}, "post": {"sasl": ["PLAIN-CLIENTTOKEN", "XOAUTH2", "NMAS_LOGIN"], "tls": False}},
+                   {"pre": {"sasl": ["X-LOGIN-TOKEN"], "tls": True}, "post": {"sasl": ["PLAIN"], "tls": False}},
+                   {"pre": {"sasl": ["XPLAIN", "OAUTHBEARER2"], "tls": False}, "post": {"sasl": ["XPLAIN"], "tls": False}}]},
     ],
     ("C10", "thorough"): [
         # sizes: (#connect scenarios + #op scenarios) ** maxcalls histories; kept below ~1 M each
